@@ -151,8 +151,12 @@ def main():
     payload = json.load(sys.stdin)
     out = []
     confs = {True: BeartypeConf(), False: BeartypeConf(is_random=False)}
+    from beartype._util.cache.utilcacheclear import clear_caches
     for c in payload['cases']:
         try:
+            # every case on its own: beartype memoises generated code per (hint, configuration), and two unions with the same
+            # members in another order are equal hints sharing one entry, so the code of the earlier spelling would come back
+            clear_caches()
             hint = U.hint_to_python(c['hint'])
             conf = confs[bool(c['is_random'])] if not c.get('conf') else U.make_conf(bool(c['is_random']), 'O1', c['conf'])
             hs = sanify_hint_root_statement(call_curr=BEARTYPE_CALL_EXTERNAL_META, hint=hint, conf=conf,
